@@ -120,6 +120,8 @@ pub struct Ctx {
     pub aborted: Option<String>,
     pub probes: BTreeMap<&'static str, u64>,
     pub faults: BTreeMap<&'static str, u64>,
+    /// Virtual time (µs) at which each fault kind fired first.
+    pub fault_first_us: BTreeMap<&'static str, u64>,
     pub panics: Vec<String>,
     pub nontrivial: bool,
     pub sample: Option<serde_json::Value>,
@@ -216,7 +218,16 @@ pub fn probe_n(name: &'static str, n: u64) {
 }
 
 pub fn fault_fired(name: &'static str) {
-    with(|c| *c.faults.entry(name).or_insert(0) += 1);
+    let now = now_us();
+    with(|c| {
+        *c.faults.entry(name).or_insert(0) += 1;
+        c.fault_first_us.entry(name).or_insert(now);
+    });
+}
+
+/// Virtual time (µs since the start of the run) at which the fault kind fired first.
+pub fn fault_time_us(name: &str) -> Option<u64> {
+    with(|c| c.fault_first_us.get(name).copied())
 }
 
 pub fn activity() {
@@ -737,6 +748,7 @@ where
         aborted: None,
         probes: BTreeMap::new(),
         faults: BTreeMap::new(),
+        fault_first_us: BTreeMap::new(),
         panics: Vec::new(),
         nontrivial: false,
         sample: None,
